@@ -52,6 +52,9 @@ var c18Frags = []hostileFrag{
 	{"hex-escape", "\\22", false},
 	{"hex-escape", "\\00003c", false},
 	{"hex-escape", "\\a", false},
+	{"hex-escape", "\\9", false},
+	{"hex-escape", "\\0", false},
+	{"hex-escape", "\\0/", false},
 	{"angle-lt", "<", false},
 	{"angle-gt", ">", false},
 	{"close-style", "</style>", false},
